@@ -28,11 +28,11 @@ def run_build(cmd, env, what):
         raise MachineryError(f"build of {what} failed:\n{tail}")
     return time.time() - t
 
-def build_conc():
+def build_conc(profile="release"):
     """E1 binary: /repo's working tree compiled with the hook on (atomics = orx_verif_shim)."""
     env = cargo_env({"RUSTFLAGS": f"--cfg {GUARD}", "CARGO_TARGET_DIR": os.path.join(TARGET, "hook")})
-    run_build(["cargo", "build", "--offline", "--release", "-p", "conc"], env, "E1 harness (hooks on)")
-    return os.path.join(TARGET, "hook", "release", "conc")
+    run_build(["cargo", "build", "--offline", "--profile", profile, "-p", "conc"], env, f"E1 harness (hooks on, {profile})")
+    return os.path.join(TARGET, "hook", profile, "conc")
 
 def build_seq(profile):
     """E3 binary in profile pdbg / prel: unmodified production build of /repo (guard off)."""
@@ -44,6 +44,7 @@ def build_seq(profile):
 def build_all():
     t = time.time()
     build_conc()
+    build_conc("hdbg")
     for prof in ("pdbg", "prel"):
         if os.path.exists(os.path.join(VERIF, "seq")):
             build_seq(prof)
